@@ -10,6 +10,7 @@ import (
 	"encoding/json"
 	"os"
 	"runtime"
+	"strconv"
 )
 
 type ViewObs struct {
@@ -41,6 +42,7 @@ type Event struct {
 	Pf     int        `json:"pf"`
 	Allocs int        `json:"allocs"`
 	Noobs  int        `json:"noobs"`
+	Raw    []string   `json:"raw"` // the int64 values handed to the harness wrapper when they differ from their codes (re-execution)
 	preObs []ViewObs  // projection taken earlier (see emitObserved)
 }
 
@@ -141,6 +143,9 @@ func (w *World) emit(e *Event) {
 	}
 	if e.Nils == nil {
 		e.Nils = []int{}
+	}
+	if e.Raw == nil {
+		e.Raw = []string{}
 	}
 	if e.Lens == nil {
 		e.Lens = []int{}
@@ -260,14 +265,34 @@ func (w *World) Slice(v, s, e int) string {
 	return res
 }
 
+// rawOf: the raw values of a call, kept only when some value is not its own code.
+func rawOf(xs, codes []int64) []string {
+	same := true
+	for i := range xs {
+		same = same && xs[i] == codes[i]
+	}
+	if same {
+		return nil
+	}
+	out := make([]string, len(xs))
+	for i, x := range xs {
+		out[i] = strconv.FormatInt(x, 10)
+	}
+	return out
+}
+
+// The value x is converted to the element type by the harness (Go conversion: it wraps); what is logged is the
+// code of the converted value, so any int64 may be passed.
 func (w *World) AppendSample(v int, x int64) {
+	c := codeAs(w.Views[v].Ty(), x)
 	res := run(func() { w.Views[v].AppendSample(x) })
-	w.emit(&Event{Op: "AppendSample", Args: []int{v + 1, int(x)}, Res: res, Cnt: -1, Allocs: lastAllocs})
+	w.emit(&Event{Op: "AppendSample", Args: []int{v + 1, int(c)}, Res: res, Cnt: -1, Allocs: lastAllocs, Raw: rawOf([]int64{x}, []int64{c})})
 }
 
 func (w *World) SetSample(v, i int, x int64) {
+	c := codeAs(w.Views[v].Ty(), x)
 	res := run(func() { w.Views[v].SetSample(i, x) })
-	w.emit(&Event{Op: "SetSample", Args: []int{v + 1, i, int(x)}, Res: res, Cnt: -1, Allocs: lastAllocs})
+	w.emit(&Event{Op: "SetSample", Args: []int{v + 1, i, int(c)}, Res: res, Cnt: -1, Allocs: lastAllocs, Raw: rawOf([]int64{x}, []int64{c})})
 }
 
 func (w *World) Sample(v, i int) {
@@ -292,7 +317,8 @@ func (w *World) Write(v int, srcTy string, in []int64) {
 	if in == nil {
 		in = []int64{}
 	}
-	w.emit(&Event{Op: "Write", Args: []int{v + 1}, Ty: srcTy, In: in, Res: res, Cnt: cnt, Allocs: lastAllocs})
+	codes := codesAs(srcTy, in)
+	w.emit(&Event{Op: "Write", Args: []int{v + 1}, Ty: srcTy, In: codes, Res: res, Cnt: cnt, Allocs: lastAllocs, Raw: rawOf(in, codes)})
 }
 
 func nilInts(nils []bool) []int {
@@ -310,8 +336,8 @@ func (w *World) WriteStriped(v int, srcTy string, ins [][]int64, nils []bool) {
 	res := run(func() { cnt = w.Views[v].WriteStriped(srcTy, ins, nils) })
 	in := make([][]int64, len(ins))
 	for c := range ins {
-		in[c] = ins[c]
-		if in[c] == nil || nils[c] {
+		in[c] = codesAs(srcTy, ins[c])
+		if ins[c] == nil || nils[c] {
 			in[c] = []int64{}
 		}
 	}
@@ -398,8 +424,9 @@ func (w *World) ChanSample(v, c, i int) {
 }
 
 func (w *World) ChanSet(v, c, i int, x int64) {
+	code := codeAs(w.Views[v].Ty(), x)
 	res := run(func() { w.Views[v].ChanSet(c, i, x) })
-	w.emit(&Event{Op: "ChanSet", Args: []int{v + 1, c, i, int(x)}, Res: res, Cnt: -1, Allocs: lastAllocs})
+	w.emit(&Event{Op: "ChanSet", Args: []int{v + 1, c, i, int(code)}, Res: res, Cnt: -1, Allocs: lastAllocs, Raw: rawOf([]int64{x}, []int64{code})})
 }
 
 func (w *World) ChanShape(v, c int) {
